@@ -20,6 +20,41 @@ CLAIMS = {
               "listed finding is a violation."),
         design='7/C20', technique='Coq proof (induction over operation histories, SeenSet invariant) + model/implementation correspondence by vm_compute',
         note=BASE_NOTE + " Retrieval: only the refutation and the correspondence are available (no soundness theorem yet)."),
+
+    'C01': dict(
+        text=("Machine-checked theorem C01_filter: for every heap, every domain and every condition writable over one variable (any "
+              "nesting of and_/or_/not_ over the six comparisons either way round, in_/contains, attribute chains, indexes, calls, "
+              "expressions in condition position, nested sub-queries) the P-model of the evaluator returns, as a LIST, the domain filtered "
+              "by ordinary truth of the surface condition (membership, order, multiplicity). Proved by structural induction "
+              "(eval_bound / eval_unbound) over unbounded trees and domains, through the elaborator whose tables are regenerated from "
+              "/repo on every run. The P-model is tied to symbolic.py by comparing exact result sequences of generated cases on every run "
+              "(caching disabled), and the implementation is compared with the specification with caching enabled and on re-evaluation."),
+        design='7/C01', technique='Coq proof (structural induction over the expression tree; P-model) + translator-regenerated tables + model/implementation correspondence on result sequences',
+        note=BASE_NOTE + " The stateful layer (de-duplication sets, lazy domain, result caches) is not in the proved model: it is covered by the correspondence only; cache-path row loss is known finding C05-wildcard-retrieval."),
+    'C02': dict(
+        text=("Machine-checked theorems over the P-model for any number of variables: C02_partition (the true rows of every node partition "
+              "the satisfying extensions of the incoming binding, the false rows the others), C02_all_selected (every satisfying assignment "
+              "of the product is returned exactly once, every other never), C02_complete / C02_sound (any selection, any order: exactly the "
+              "projections of the satisfying assignments). Unbounded trees, domains, numbers of variables. Tie: exact row sequences "
+              "(all variables selected) or row sets (projections) of generated cases against the model on every run; cached configuration "
+              "and re-evaluation against the specification."),
+        design='7/C02', technique='Coq proof (partition/cover invariant by structural induction, counting argument) + correspondence',
+        note=BASE_NOTE + " Projection de-duplication (the seen sets) is outside the proved model (set-level tie only); selected EXPRESSIONS other than variables are covered by C19_selected (one variable) and by correspondence; cache-path row loss is known finding C05-wildcard-retrieval."),
+    'C03': dict(
+        text=("Machine-checked theorems over Generated.v (the inverse-operator table and the Not dispatch are extracted from symbolic.py by the "
+              "fail-closed translator on every run): the table is total, every row is the TRUE inverse on all operand pairs and it is "
+              "involutive; neg is De Morgan + toggle; C03_complement (the negated tree holds exactly where the tree does not, for every tree "
+              "and depth), C03_double (negating twice restores the ORIGINAL node), C03_elab_sat (what the user writes means what it says). "
+              "Row level: C02's evaluator theorems. A changed table row breaks inverse_negates; the check then searches for a failing query."),
+        design='7/C03', technique='Coq proof over translator-generated tables (re-checked against the source each run) + structural induction + correspondence',
+        note=BASE_NOTE + " Order comparisons are modelled as a total order (numeric operands); partial orders (NaN, sets) are outside the value subset. Predicates (Variable nodes with _invert_) are covered by correspondence only."),
+    'C19': dict(
+        text=("Machine-checked: the evaluator theorems C01_filter / C02_* carry no truthiness hypothesis; C19_operand and C19_membership "
+              "(comparison / membership against ANY literal incl. 0, '', (), None, False), C19_selected (a selected expression is delivered "
+              "with its value whatever it is), C19_condition_position (only an expression in condition position is read as a boolean). "
+              "Tie: generated cases on a falsy-heavy alphabet compared row by row with the model; evidence counts falsy values routed."),
+        design='7/C19', technique='Coq proof (unconditional forms of the evaluator theorems) + correspondence on the falsy alphabet',
+        note=BASE_NOTE + " Field constraints / constructor arguments (C13/C11 positions) are covered by those properties' checks."),
 }
 
 NOT_YET = {}
